@@ -46,7 +46,7 @@ def build():
     u.verify(AP, "request_certificate", "acme_proto", props=["C03", "C05", "C07", "C01", "C02", "C10", "C11"], fns={"request_certificate": FnSpec(
         ret="r", ghost=True, locks=True, attrs="#[verifier::exec_allows_no_decreases_clause]",
         # the contract speaks of the order that is finalized / whose certificate is downloaded: the variables the code itself uses there
-        names={"ofin": r"&(\w+)\.finalize\b", "ocert": r"let \w+ = (\w+)\s*\.certificate"}, sig="""
+        names={"ofin": r"&(\w+)\.finalize\b", "ocert": r"(?<![\w.])(\w+)\s*\.certificate\b(?!\s*[(:])"}, sig="""
     requires old(w).pending_clean.len() == 0, !old(w).hooks_ok, !old(w).cert_written, old(w).cur_auth is None, old(w).downloaded is None,
     ensures
         // success is reported only after the downloaded certificate has been written next to the key
@@ -102,7 +102,7 @@ def build():
     }"""),
             ("after_stmt", "let csr = csr.to_string();", 1, """
     proof { assert(csr@ == csr_json(csr_b64(csr0))); } //@C01.finalize_payload_is_the_csr"""),
-            ("before_stmt", "let mut data = cert", 1, """
+            ("before_stmt_re", r"let (?:mut )?\w+ = cert\s*\.call_challenge_hooks\(", 1, """
                 proof {
                     // only a challenge of the type configured for this identifier is acted on
                     assert(same_type(current_identifier.challenge, *challenge)); //@C05.only_challenges_of_the_configured_type_are_acted_on
@@ -113,7 +113,7 @@ def build():
         // another CSR, and its certificate is for that other key
         assert($ofin.status is Ready); //@C03.only_an_order_that_is_ready_is_finalized,C01.only_an_order_that_is_ready_is_finalized
     }"""),
-            ("before_stmt_re", r"let \w+ = \w+\s*\.certificate", 1, "let ghost order_cert__ = $ocert.certificate; let ghost order_valid__ = $ocert.status is Valid;"),
+            ("before_stmt_re", r"(?<![\w.])\w+\s*\.certificate\b(?!\s*[(:])", 1, "let ghost order_cert__ = $ocert.certificate; let ghost order_valid__ = $ocert.status is Valid;"),
             ("before_stmt", "http::get_certificate(", 1, """
     proof {
         // what is downloaded is what the order names as its certificate
